@@ -79,3 +79,24 @@ Example C06_cond_frag_inhabited :
                  MCond (Cond true false [MExpr (EBinary (col 100%N) BIs (EKeyword KwNull))])])] in
   forall b, cond_frag unit b c = true.
 Proof. intros col c [| |]; reflexivity. Qed.
+
+(* The same end-to-end statement with leaves over EVERY binary operator (custom and extension operators
+   included), for every assignment lv0 of levels to the operators the dialect's table does not place. *)
+Require Import SQV.Proofs.PrattLinkAnyProofs SQV.Proofs.WhereLinkAnyProofs.
+Theorem C06_written_condition_reads_as_specified_any_operator :
+  forall (Q : Type) b (lv0 : binop -> nat) more (rho : Expr.expr Q -> tv) (c : cond Q) rest p rest',
+  cond_frag_any Q c = true ->
+  stops (Expr.expr Q) sop (prec_any b lv0) 0 rest ->
+  P (Expr.expr Q) sop (prec_any b lv0) (rmin_any b lv0) (notp b) tern 0
+    (abstract_rendering Q (tables_of more b) (to_simple_expr c) ++ rest) p rest' ->
+  p = skel Q (to_simple_expr c) /\ rest' = rest /\ eval3 rho (unskel Q p) = sem_cond rho c.
+Proof. intros Q b lv0 more rho. apply written_condition_reads_as_specified_any. apply all_rows_safe. Qed.
+Print Assumptions C06_written_condition_reads_as_specified_any_operator.
+
+Theorem C06_written_condition_parses_any_operator :
+  forall (Q : Type) b (lv0 : binop -> nat) more (c : cond Q) rest,
+  cond_frag_any Q c = true -> stops (Expr.expr Q) sop (prec_any b lv0) 0 rest ->
+  P (Expr.expr Q) sop (prec_any b lv0) (rmin_any b lv0) (notp b) tern 0
+    (abstract_rendering Q (tables_of more b) (to_simple_expr c) ++ rest) (skel Q (to_simple_expr c)) rest.
+Proof. intros Q b lv0 more. apply written_condition_parses_any. apply all_rows_safe. Qed.
+Print Assumptions C06_written_condition_parses_any_operator.
